@@ -253,14 +253,23 @@ def run(tier, seed, only=None):
         assumptions=["reference fractions are built from single-chain amplitudes and plain numpy sums", "tolerances 1e-10 (amplitudes, relative to the largest), 1e-9 (fractions)"],
     )
     gs = groups(tier)
+    if tier == "thorough":
+        # all quick groups plus every third of the additional resonance spin-parity combinations (the full product is ~6 h)
+        q = [g[0] for g in groups("quick")]
+        extra = [g for g in gs if g[0] not in q]
+        gs = [g for g in gs if g[0] in q] + extra[seed % 3::3]
+        rep.cap("thorough tier: %d of %d decay groups (all quick groups + every third additional spin-parity combination)" % (len(gs), len(q) + len(extra)))
     parts = only or ["linear", "fractions"]
     out = []
     if "linear" in parts:
         out += pool.run_items("mc.props.C03", "linear_work", [{"groups": [g], "seed": seed, "pairs_cap": 3 if tier == "quick" else 0} for g in gs])
     if "fractions" in parts:
-        fg = [g for g in gs if g[0].split("|")[0] in ("scalar", "vector_toy", "fermion_pair", "fourbody")] if tier == "quick" else gs
-        samples = [(7, False), (16, True)] if tier == "quick" else [(7, False), (7, True), (16, False), (16, True)]
-        out += pool.run_items("mc.props.C03", "fraction_work", [{"groups": [g], "seed": seed, "samples": samples, "tier": tier, "max_parts": 2 if tier == "quick" else 6} for g in fg])
+        fams = ("scalar", "vector_toy", "fermion_pair", "fourbody") if tier == "quick" else ("scalar", "vector_toy", "fermion_pair", "fourbody", "fermion_weak", "spin2_top")
+        fg = [g for g in gs if g[0].split("|")[0] in fams]
+        if tier == "thorough":
+            fg = [g for g in fg if g[0] in [x[0] for x in groups("quick")]] + [g for g in fg if g[0] not in [x[0] for x in groups("quick")]][::3]
+        samples = [(7, False), (16, True)] if tier == "quick" else [(7, False), (7, True), (16, True)]
+        out += pool.run_items("mc.props.C03", "fraction_work", [{"groups": [g], "seed": seed, "samples": samples, "tier": tier, "max_parts": 2 if tier == "quick" else 4} for g in fg])
     for r in out:
         rep.merge(r)
     rep.extra["groups"] = len(gs)
